@@ -1,0 +1,13 @@
+//! Verification hooks for the out-of-tree /verif machinery.
+//!
+//! Everything in this module tree is compiled only with the cargo feature
+//! `verif-hooks`. It contains wrappers and re-exports that make crate-private
+//! items reachable from an external harness crate. Nothing here changes the
+//! behaviour of the server.
+#![allow(clippy::expect_used)]
+#![allow(clippy::unwrap_used)]
+#![allow(clippy::panic)]
+#![allow(clippy::indexing_slicing)]
+#![allow(missing_docs)]
+
+pub mod repl;
